@@ -339,6 +339,9 @@ def etype(e, ctx):
         return 1, False, True
     if k == "ps":
         return e[2] - e[3] + 1, False, False
+    if k == "psit":
+        # ["psit", hi, lo]: part-select of the current element of the innermost foreach
+        return e[1] - e[2] + 1, False, False
     if k == "bs":
         return 1, False, False
     if k == "sz":
@@ -482,6 +485,11 @@ def ev_self(e, ctx):
         if not (0 <= e[3] <= e[2] < w):
             raise Corner("part-select outside the field")
         return ((v & ((1 << w) - 1)) >> e[3]) & ((1 << (e[2] - e[3] + 1)) - 1)
+    if k == "psit":
+        v, w, s = _leaf_tv(ctx, _it_path(["it"], ctx))
+        if not (0 <= e[2] <= e[1] < w):
+            raise Corner("part-select outside the field")
+        return ((v & ((1 << w) - 1)) >> e[2]) & ((1 << (e[1] - e[2] + 1)) - 1)
     if k == "bs":
         v, w, s = _leaf_tv(ctx, ctx.abs(e[1]))
         if not (0 <= e[2] < w):
